@@ -213,3 +213,59 @@ def surrogate_in_escape_window(text):
         if c == "%" and any(0xD800 <= ord(x) <= 0xDFFF for x in text[i + 1:i + 3]):
             return True
     return False
+
+
+# ---------------------------------------------------------------- lemmas over the step function (C02, C03, C04)
+
+def canonical_unit_at(quoter, B, p):
+    """the bytes at p spell a canonical unit of this quoter's component: a literal of the
+    component that is not '%' (and, in a query, not a space), or '%HH' in upper case whose value
+    must be escaped there or is a protected delimiter"""
+    lit_set, protected, qs, requote = config_of(quoter)
+    n = len(B)
+    ch = code_at(B, p)
+    if ch == 37:
+        if p + 2 < n:
+            a = code_at(B, p + 1)
+            b = code_at(B, p + 2)
+            if chr(a) in UPPER_HEX and chr(b) in UPPER_HEX and a < 128 and b < 128:
+                v = hexval(a) * 16 + hexval(b)
+                return not (v < 128 and chr(v) in lit_set and not (chr(v) in protected))
+        return False
+    return ch < 128 and chr(ch) in lit_set
+
+
+def lemma_canonical_is_fixed(quoter, B, p):
+    """C03/C04 (idempotence, identity): on text that is already canonical a re-quoting quoter
+    emits exactly the bytes it consumes"""
+    if not canonical_unit_at(quoter, B, p):
+        return True
+    unit, k = q_step(quoter, B, p)
+    return unit_is_input(unit, B, p, k)
+
+
+def requoting(quoter, B, p):
+    return 0 <= p and p < len(B) and config_of(quoter)[3]
+
+
+def token_value(unit):
+    """the byte a unit stands for, and whether it is written as an active (literal) character"""
+    if len(unit) == 3:
+        return hexval(unit[1]) * 16 + hexval(unit[2]), False
+    return unit[0], True
+
+
+def lemma_value_preserved(quoter, B, p):
+    """C02: the unit decodes to the byte the consumed text decodes to; an escaped protected
+    delimiter stays escaped and a literal one stays literal"""
+    lit_set, protected, qs, requote = config_of(quoter)
+    n = len(B)
+    ch = code_at(B, p)
+    unit, k = q_step(quoter, B, p)
+    v, literal = token_value(unit)
+    if k == 3:
+        src = hexval(code_at(B, p + 1)) * 16 + hexval(code_at(B, p + 2))
+        return v == src and (not (src < 128 and chr(src) in protected) or not literal)
+    if qs and ch == 32:
+        return unit == (43,)
+    return v == ch and (not (ch < 128 and chr(ch) in protected) or literal)
